@@ -330,3 +330,72 @@ pub fn exec_heap(m: &HashMap<String, String>) -> String {
         cfg!(debug_assertions)
     )
 }
+
+// ---------------------------------------------------------------- quotient filter
+use crate::models::{IdBH, H64};
+use pdatastructs::filters::quotientfilter::QuotientFilter;
+
+fn qr_pairs(s: &str) -> Vec<(u64, u64)> {
+    s.split(',')
+        .filter(|x| !x.trim().is_empty())
+        .map(|t| {
+            let v: Vec<u64> = t.split(':').map(|x| x.trim().parse().unwrap()).collect();
+            (v[0], v[1])
+        })
+        .collect()
+}
+
+pub fn exec_qf(m: &HashMap<String, String>) -> String {
+    let bq: usize = m["bq"].parse().unwrap();
+    let br: usize = m["br"].parse().unwrap();
+    let key = |q: u64, r: u64| H64((q << br) | r);
+    // reach the pre-state through the public API: insert the members (any order gives the same state)
+    let mut f = QuotientFilter::<H64, IdBH>::with_params_and_hash(bq, br, IdBH);
+    let mut reach_ok = true;
+    for (q, r) in qr_pairs(m.get("members").map(|s| s.as_str()).unwrap_or("")) {
+        reach_ok &= f.insert(&key(q, r)).is_ok();
+    }
+    let op = m["op"].as_str();
+    let mut extra = String::new();
+    let result = match op {
+        "insert" => {
+            let y = qr_pairs(&m["y"])[0];
+            match f.insert(&key(y.0, y.1)) {
+                Ok(true) => "ok_true",
+                Ok(false) => "ok_false",
+                Err(_) => "err",
+            }
+        }
+        "query" => {
+            let y = qr_pairs(&m["y"])[0];
+            if f.query(&key(y.0, y.1)) {
+                "true"
+            } else {
+                "false"
+            }
+        }
+        "union" => {
+            let mut g = QuotientFilter::<H64, IdBH>::with_params_and_hash(bq, br, IdBH);
+            for (q, r) in qr_pairs(m.get("other").map(|s| s.as_str()).unwrap_or("")) {
+                reach_ok &= g.insert(&key(q, r)).is_ok();
+            }
+            let before: Vec<_> = (0..(1usize << bq)).map(|i| g.verif_slot(i)).collect();
+            let r = f.union(&g);
+            let after: Vec<_> = (0..(1usize << bq)).map(|i| g.verif_slot(i)).collect();
+            extra = format!(",\"other_unchanged\":{}", before == after);
+            if r.is_ok() {
+                "ok"
+            } else {
+                "err"
+            }
+        }
+        _ => "unknown_op",
+    };
+    let slots: Vec<String> = (0..(1usize << bq))
+        .map(|i| {
+            let s = f.verif_slot(i);
+            format!("[{},{},{},{}]", s.0, s.1, s.2, s.3)
+        })
+        .collect();
+    format!("{{\"result\":\"{}\",\"reach_ok\":{},\"slots\":[{}],\"len\":{}{}}}", result, reach_ok, slots.join(","), f.len(), extra)
+}
